@@ -19,7 +19,10 @@ RUN_FILES = ['Tie.v', 'Properties.v', 'FloatErr.v', 'FloatErrTrig.v', 'FloatErr3
 TRUSTED = [
     'tools/py2coq.py (syntactic translator, fail-closed)',
     'coq/Sem/Val.v: model of scipp unit algebra, dtype promotion, to_unit, astype, sqrt, sin (element-wise)',
-    'scipp broadcasting is pointwise (modelled; exercised with scalar/1-d/2-d operands)',
+    'scipp broadcasting is pointwise BY DIMENSION LABEL, independent of dim order and memory layout (modelled in '
+    'coq-run/C01/Corr.v: flat / merge_dims / acheck pick the operand elements of every result element by label and require the '
+    'result to span the union of the operand dims; exercised with scalar/1-d/2-d-broadcast operands and per-pixel n-d operands in '
+    'same / different dim order, transposed views, offset and strided slices, square and non-square grids)',
     'coq/Sem/QInst.v rational approximations of sqrt/sin (correspondence only, not used in proofs)',
     'tools/harness/kernels_impl.py + lib/kcorr.py (exact serialisation of operands/results)',
     'coq/Sem/FlInst.v, FlInstT.v, FlInstS.v: rounding-error instances of the arithmetic record (Flocq FLX 53 / FLX 24 round-to-nearest-even, '
@@ -75,18 +78,99 @@ NAT = {
 }
 
 
-def gen_groups(rng, n_groups):
+# pixel grids (ny, nx) of the per-pixel operand classes: square and non-square, a length-1 dim
+GRIDS = [(2, 2), (3, 3), (2, 3), (3, 2), (3, 3), (1, 3), (4, 2)]
+OLD_MODES = ['scalar', '1d', '1d', '2d']
+ND_MODES = ['pix', 'pix', 'pixp']
+
+
+def _layout(rng, dims):
+    """memory layout of one n-d operand: contiguous in its own dim order, a transposed view of a buffer stored
+    in another dim order, and / or a (strided, offset) slice of a larger buffer"""
+    lay = {}
+    if len(dims) >= 2 and rng.random() < 0.35:
+        store = dims[:]
+        while store == dims:
+            rng.shuffle(store)
+        lay['store'] = store
+    if dims and rng.random() < 0.3:
+        lay['pad'] = {rng.choice(dims): [rng.randint(0, 2), rng.randint(0, 2), rng.choice([1, 1, 2])]}
+    return lay or None
+
+
+def plan_nd(rng, order, mode):
+    """labelled dims / shape / layout per operand for the per-pixel classes.  'pix': every per-pixel operand (Ltotal,
+    two_theta, or the data operand itself) lives on the same (y, x) grid, each in its OWN dim order and layout; the data
+    operand may instead be an event axis, a dense (y, x, event) block or a scalar.  'pixp': one operand per pixel,
+    another one only per row / per column of the same grid."""
+    ny, nx = rng.choice(GRIDS)
+    size = {'y': ny, 'x': nx, 'event': 3}
+
+    def grid():
+        d = ['y', 'x']
+        if rng.random() < 0.5:
+            d.reverse()
+        return d
+
+    def data(kinds):
+        k = rng.choice(kinds)
+        if k == 'events':
+            return ['event']
+        if k == 'pixel':
+            return grid()
+        if k == 'dense3':
+            d = ['y', 'x', 'event']
+            rng.shuffle(d)
+            return d
+        if k == 'line':
+            return [rng.choice(['y', 'x'])]
+        return []
+    n = len(order)
+    if n == 1:
+        dims = [data(['pixel', 'pixel', 'dense3'])]
+    elif mode == 'pix':
+        dims = [data(['pixel', 'pixel', 'events', 'dense3'] if n == 2 else ['events', 'events', 'pixel', 'dense3', 'scalar'])]
+        dims += [grid() for _ in range(n - 1)]
+        # make sure the class "same grid, different dim order" is frequent
+        if rng.random() < 0.6:
+            two = [i for i, d in enumerate(dims) if sorted(d) == ['x', 'y']]
+            if len(two) >= 2:
+                dims[two[-1]] = list(reversed(dims[two[0]]))
+    else:
+        rest = [grid()] + [[rng.choice(['y', 'x'])] for _ in range(n - 2)]
+        rng.shuffle(rest)
+        dims = [data(['pixel', 'events', 'line', 'dense3'] if n == 2 else ['events', 'pixel', 'line', 'scalar'])] + rest
+        if n == 2 and len(dims[0]) < 2 and len(dims[1]) < 2:
+            dims[1] = grid()
+    return [{'dims': d, 'shape': [size[x] for x in d], 'layout': _layout(rng, d)} for d in dims]
+
+
+def gen_groups(rng, n_groups, names=None, modes=None):
     import math
     groups = []
-    names = list(KERNELS)
+    names = list(names or KERNELS)
+    modes = modes or (OLD_MODES + ND_MODES)
     for gi in range(n_groups):
         kname = names[gi % len(names)]
         order, expr = KERNELS[kname]
-        mode = rng.choice(['scalar', '1d', '1d', '2d'])
+        mode = rng.choice(modes)
         single = rng.random() < 0.3      # the data operand in float32
+        plan = plan_nd(rng, order, mode) if mode in ND_MODES else None
         ops = {}
+
+        def put(nm, op, pos):
+            if plan is not None:
+                op.pop('dim', None)
+                op['dims'], op['shape'] = plan[pos]['dims'], plan[pos]['shape']
+                if plan[pos]['layout']:
+                    op['layout'] = plan[pos]['layout']
+            ops[nm] = op
         for pos, nm in enumerate(order):
-            if mode == 'scalar':
+            if plan is not None:
+                dim, n = 'x', 1
+                for s_ in plan[pos]['shape']:
+                    n *= s_
+            elif mode == 'scalar':
                 dim, n = None, 1
             elif mode == '1d':
                 dim, n = 'x', 6
@@ -105,11 +189,11 @@ def gen_groups(rng, n_groups):
                     dt = rng.choice(['int64', 'int32'])
                     vals = [math.radians(rng.randint(1, 179)) for _ in range(n)] if unit[0] == 'deg' \
                         else [float(rng.randint(1, 3)) for _ in range(n)]
-                    ops[nm] = {'values': [int(round(v / unit[1])) for v in vals], 'unit': unit[0], 'dtype': dt, 'dim': dim}
+                    put(nm, {'values': [int(round(v / unit[1])) for v in vals], 'unit': unit[0], 'dtype': dt, 'dim': dim}, pos)
                     continue
                 if unit[0] == 'deg':    # stay inside (0, pi] after the deg->rad rounding
                     vals = [min(v, 3.1415) for v in vals]
-                ops[nm] = operand(rng, 'angle', vals, dtype=dt, dim=dim, unit=unit)
+                put(nm, operand(rng, 'angle', vals, dtype=dt, dim=dim, unit=unit), pos)
                 continue
             if single:
                 units, (lo, hi) = NAT[nm]
@@ -129,22 +213,50 @@ def gen_groups(rng, n_groups):
                     vals = [min(max(v, unit[1]), 3e4 * unit[1]) for v in vals]
                 if dt == 'float32':
                     vals = [min(max(v, 1e-30 * unit[1]), 1e30 * unit[1]) for v in vals]
-            ops[nm] = operand(rng, KIND[nm], vals, dtype=dt, dim=dim, unit=unit)
-        groups.append({'id': gi, 'kname': kname, 'expr': expr, 'operands': ops, 'single': single})
+            put(nm, operand(rng, KIND[nm], vals, dtype=dt, dim=dim, unit=unit), pos)
+        groups.append({'id': gi, 'kname': kname, 'expr': expr, 'operands': ops, 'single': single, 'mode': mode})
     return groups
+
+
+def shape_class(g):
+    """input class of a group for the coverage record: mode, whether two per-pixel operands differ in dim order,
+    which layouts occur"""
+    if g['mode'] not in ND_MODES:
+        return g['mode']
+    two = [tuple(o['dims']) for o in g['operands'].values() if len(o.get('dims') or []) == 2]
+    lays = set()
+    for o in g['operands'].values():
+        lay = o.get('layout') or {}
+        if 'store' in lay:
+            lays.add('transposed-view')
+        if 'pad' in lay:
+            lays.add('strided-slice' if list(lay['pad'].values())[0][2] > 1 else 'offset-slice')
+    sq = {tuple(sorted(zip(o['dims'], o['shape']))) for o in g['operands'].values() if len(o.get('dims') or []) >= 2}
+    shp = ''
+    for o in g['operands'].values():
+        if len(o.get('dims') or []) >= 2:
+            sz = dict(zip(o['dims'], o['shape']))
+            shp = 'square' if sz.get('x') == sz.get('y') else 'non-square'
+    order = 'different-dim-order' if len(set(two)) > 1 else ('same-dim-order' if len(two) > 1 else 'one-2d-operand')
+    if any(len(o.get('dims') or []) == 3 for o in g['operands'].values()):
+        order += '+dense-3d'
+    return f'{g["mode"]}:{shp}:{order}' + (':' + '+'.join(sorted(lays)) if lays else '')
 
 
 def correspondence(ctx):
     rng = random.Random(ctx.seed)
-    n_groups = 160 if ctx.tier == 'quick' else 4000
+    n_groups = 190 if ctx.tier == 'quick' else 4500
     groups = gen_groups(rng, n_groups)
     res = ctx.run_impl('kernels_impl.py', {'groups': [{k: g[k] for k in ('id', 'expr', 'operands')} for g in groups]})
     h = res['constants']['h']['value']
     mn = res['constants']['m_n']['value']
     terms, descs = [], []
+    aterms, adescs = [], []          # whole-array cases: Coq matches the elements by dim label (Corr.v acheck)
     mutated = 0
+    classes = {}
     for g, r in zip(groups, res['groups']):
         if 'build_error' in r:
+            ctx.note(f'group {g["id"]} ({g["kname"]}, {g["mode"]}) could not be built: {r["build_error"]}')
             continue
         if not r.get('inputs_unchanged', True):
             mutated += 1
@@ -155,6 +267,18 @@ def correspondence(ctx):
         tol = '(1 # 1000000000000)' if not any32 else '(2 # 1000000)'
         if '>' in g['kname'] and not any32:
             tol = '(3 # 1000000000000)'
+        cl = shape_class(g)
+        classes[cl] = classes.get(cl, 0) + 1
+        if g['mode'] in ND_MODES:
+            ac = kcorr.array_case(g['kname'], KERNELS[g['kname']][0], g, r, tol)
+            if ac is None:
+                ctx.violation(f'{g["kname"]}:result-not-a-variable', f'{g["kname"]} did not return a numeric variable with a unit '
+                              f'for the operands {g["operands"]}', {'group': {k: g[k] for k in ("kname", "expr", "operands")},
+                                                                    'result': r.get('result')})
+                continue
+            aterms.append(ac[0])
+            adescs.append(ac[1])
+            continue
         for t, d in kcorr.element_cases(g['kname'], KERNELS[g['kname']][0], g, r, tol):
             terms.append(t)
             descs.append(d)
@@ -162,8 +286,16 @@ def correspondence(ctx):
               'From Verif.Sem Require Import Field Val QInst Corr.\nFrom Run Require Import Corr.\n'
               'Import ListNotations.\nOpen Scope string_scope.\n'
               f'Definition H : Q := {kcorr.q(h)}.\nDefinition MN : Q := {kcorr.q(mn)}.\n')
-    fails, errors = ctx.coq_eval_shards(header, terms, lambda k: 'Eval vm_compute in (report (map (check H MN) cases)).\n')
-    for name, e in errors:
+    # the two families of shards are independent: evaluate them side by side
+    from concurrent.futures import ThreadPoolExecutor
+    with ThreadPoolExecutor(max_workers=2) as ex:
+        f1 = ex.submit(ctx.coq_eval_shards, header, terms,
+                       lambda k: 'Eval vm_compute in (report (map (check H MN) cases)).\n', 200)
+        f2 = ex.submit(ctx.coq_eval_shards, header, aterms,
+                       lambda k: 'Eval vm_compute in (report (map (acheck H MN) cases)).\n', 10, 'acases')
+        fails, errors = f1.result()
+        afails, aerrors = f2.result()
+    for name, e in errors + aerrors:
         ctx.violation('corr-shard-error', f'correspondence shard {name} did not evaluate: {e[:300]}', {'shard': name, 'error': e}, found_input=False)
     seen = set()
     for i, why in sorted(fails.items()):
@@ -176,33 +308,118 @@ def correspondence(ctx):
         seen.add(key)
         ctx.violation(key, f'{d["kernel"]}: implementation differs from the de Broglie/Bragg model ({why}) on {d}',
                       {'case': d, 'reason': why})
+    for i, why in sorted(afails.items()):
+        reason, _, kk = why.partition('@')
+        ds = adescs[i]
+        d = ds[int(kk)] if kk.isdigit() and int(kk) < len(ds) else ds[0]
+        key = f'{d["kernel"]}:{reason.split(":")[0]}:per-pixel'
+        if key in seen:
+            continue
+        seen.add(key)
+        brief = {k: d[k] for k in ('kernel', 'operands', 'impl', 'element', 'arrays') if k in d}
+        ctx.violation(key, f'{d["kernel"]} on labelled n-d operands: implementation differs from the de Broglie/Bragg model '
+                           f'({reason}; elements matched by dimension label) on {brief}',
+                      {'case': d, 'reason': why, 'class': shape_class(groups_by_id(groups, d, adescs, i))})
     if mutated:
         ctx.note(f'{mutated} groups had an operand modified by the call (C09 covers this)')
     kinds = {}
-    for d in descs:
+    alld = descs + [d for ds in adescs for d in ds]
+    for d in alld:
         kinds[d['kernel']] = kinds.get(d['kernel'], 0) + 1
-    distinct = len({repr(d['operands']) + d['kernel'] for d in descs if not isinstance(d['impl'], str)})
+    distinct = len({repr(d['operands']) + d['kernel'] for d in alld if not isinstance(d['impl'], str)})
+
+    def slim(d):
+        return {k: v for k, v in d.items() if k != 'group_operands'}
     ctx.coverage.update({
-        'evaluations': len(terms),
+        'evaluations': len(alld),
         'distinct_nontrivial': distinct,
-        'rule': 'element-wise cases from random operand groups (units x dtypes x scalar/1-d/2-d broadcast) over 1e-9..1e9 SI; '
+        'rule': 'element-wise cases from random operand groups (units x dtypes x scalar/1-d/2-d broadcast/per-pixel n-d operands '
+                'in same and different dim order, transposed views, offset/strided slices, square and non-square grids) over '
+                '1e-9..1e9 SI; n-d groups are handed to Coq as labelled arrays and matched element by element BY DIMENSION LABEL '
+                'there (Corr.v acheck), result dims = union of the operand dims; '
                 'non-trivial = the implementation returned a finite value (not an exception); distinct = distinct (kernel, operands)',
-        'samples': descs[:3] + descs[-2:],
+        'samples': [slim(d) for d in descs[:3] + descs[-1:] + (adescs[0][:1] if adescs else [])],
         'per_kernel': kinds,
-        'disagreements': len(fails),
+        'shape_classes': classes,
+        'nd_summary': {t: sum(n for c, n in classes.items() if t in c) for t in
+                       ('pix:', 'pixp:', 'different-dim-order', 'same-dim-order', 'dense-3d', 'transposed-view', 'offset-slice',
+                        'strided-slice', ':square', 'non-square')},
+        'array_cases': len(aterms),
+        'disagreements': len(fails) + len(afails),
         'constants': {'h': kcorr.fmt(h), 'm_n': kcorr.fmt(mn)},
         'scipp_version': res.get('scipp'),
     })
 
 
+def groups_by_id(groups, d, adescs, i):
+    """the request group an array description came from"""
+    for g in groups:
+        if g['mode'] in ND_MODES and g['kname'] == d['kernel'] and \
+                {n: g['operands'][n] for n in KERNELS[g['kname']][0]} == d.get('group_operands'):
+            return g
+    return {'mode': 'pix', 'operands': d.get('group_operands') or {}}
+
+
+def _calls(expr):
+    """names of the kernels called by an expression of KERNELS"""
+    if not isinstance(expr, dict):
+        return set()
+    out = {expr['call'].split(':')[-1]}
+    for e in expr.get('args', {}).values():
+        out |= _calls(e)
+    return out
+
+
+# helpers of tof.py -> public kernels through which they are reached
+HELPERS = {'_energy_constant': {'energy_from_tof'},
+           '_wavelength_Q_conversions': {'Q_from_wavelength', 'wavelength_from_Q'}}
+
+
+def changed_functions():
+    """`<file>:<function>` of every statement of the anchored files that differs from the pinned text (static)"""
+    try:
+        import covtie
+        import vlib
+        return sorted({c.split(': ')[0] for c in covtie.changed(vlib.VERIF, vlib.REPO, ID, None)})
+    except Exception:
+        return []
+
+
+def focus_kernels(broken):
+    """kernel / composition names that exercise the functions named by the broken obligations
+    (`exercise:<file>:<function>`, `Tie.v:<kernel>_...`, ...); [] = no particular function can be told"""
+    fns = set()
+    publics = {k for k in KERNELS if '>' not in k}
+    for b in broken or []:
+        for fn in sorted(publics | set(HELPERS), key=len, reverse=True):
+            if fn in str(b):
+                fns |= HELPERS.get(fn, {fn})
+    return [k for k, (_, e) in KERNELS.items() if _calls(e) & fns]
+
+
 def search(ctx, broken):
     """an obligation broke: the correspondence above already compares the regenerated model and the
     implementation against each other; here the property's own statement (closed formulas in exact
-    rational arithmetic, constants from scipp) is evaluated against the implementation."""
+    rational arithmetic, constants from scipp) is evaluated against the implementation, over every operand class
+    of the generator (scalar / 1-d / broadcast / per-pixel n-d in any dim order and memory layout); two thirds of
+    the cases go to the kernels that reach the functions named by the broken obligations."""
     import json
     from fractions import Fraction
     rng = random.Random(ctx.seed + 1)
-    groups = gen_groups(rng, 120)
+    # which kernels to concentrate on: the functions whose text changed (static), else those named by the broken
+    # obligations (when the translation fails every obligation of Tie.v breaks, which names nothing in particular)
+    focus = focus_kernels(changed_functions()) or focus_kernels(broken)
+    if len(focus) == len(KERNELS):
+        focus = []
+    groups = gen_groups(rng, 70 if focus else 110)
+    if focus:
+        more = gen_groups(rng, 60, names=focus) + gen_groups(rng, 60, names=focus, modes=ND_MODES)
+    else:
+        more = gen_groups(rng, 80, modes=ND_MODES)
+    for i, g in enumerate(more):
+        g['id'] = len(groups) + i
+    groups += more
+    ctx.coverage['search'] = {'groups': len(groups), 'focus_kernels': focus}
     res = ctx.run_impl('kernels_impl.py', {'groups': [{k: g[k] for k in ('id', 'expr', 'operands')} for g in groups]})
     found = []
     # the closed formulas need sin/sqrt; use Python floats (accurate to ~1e-15 here) with the property's
@@ -225,30 +442,78 @@ def search(ctx, broken):
         'dspacing_from_wavelength': lambda l, th: l / (2 * math.sin(th / 2)),
         'dspacing_from_energy': lambda E, th: hq / (math.sqrt(8 * mq * E) * math.sin(th / 2)),
     }
+    # routes and round trips: the quantity the composition must reproduce (property: routes agree, round trips
+    # are identities), as a formula of the operands
+    FORM.update({
+        'tof>wavelength>energy': FORM['energy_from_tof'],
+        'tof>wavelength>dspacing': FORM['dspacing_from_tof'],
+        'energy>wavelength>dspacing': FORM['dspacing_from_energy'],
+        'tof>wavelength>Q': lambda t, L, th: 4 * math.pi * math.sin(th / 2) * mq * L / (hq * t),
+        'wavelength>energy>wavelength': lambda l: l,
+        'energy>wavelength>energy': lambda E: E,
+        'wavelength>Q>wavelength': lambda l, th: l,
+    })
+    seen = set()
     for g, r in zip(groups, res['groups']):
-        if g['kname'] not in FORM or 'result' not in r:
+        if g['kname'] not in FORM or 'build_error' in r:
+            continue
+        order = KERNELS[g['kname']][0]
+        gdesc = {'kernel': g['kname'], 'class': shape_class(g), 'arrays': kcorr.layout_of(g, order),
+                 'group_operands': {n: g['operands'][n] for n in order}}
+        if 'result' not in r:
+            # every generated operand group is physically valid (positive finite values, angles in (0, pi], one
+            # size per dim label): an exception is not an answer the property allows
+            key = f'{g["kname"]}:raises-{r.get("error")}'
+            if key not in seen:
+                seen.add(key)
+                d = dict(gdesc, impl='raises ' + str(r.get('error')), error_text=r.get('error_text'))
+                ctx.violation(key, f'{g["kname"]} raises {r.get("error")} ({(r.get("error_text") or "")[:120]}) for a valid operand '
+                                   f'group ({gdesc["class"]}; {gdesc["arrays"]})', d)
+                found.append(d)
             continue
         rr = r['result']
-        order = KERNELS[g['kname']][0]
+        if rr.get('unit') is None or 'shape' not in rr:
+            continue
+        # labelled shape of the result = union of the operands' labelled dims
+        want_dims = {}
+        for nm in order:
+            st = r['operands'][nm]
+            want_dims.update(zip(st['dims'], st.get('shape') or []))
+        if dict(zip(rr['dims'], rr['shape'])) != want_dims or len(rr['dims']) != len(want_dims):
+            key = f'{g["kname"]}:result-dims'
+            if key not in seen:
+                seen.add(key)
+                d = dict(gdesc, result_dims=rr['dims'], result_shape=rr['shape'], expected=want_dims)
+                ctx.violation(key, f'{g["kname"]} returns dims {rr["dims"]} {rr["shape"]} where the operands span {want_dims}', d)
+                found.append(d)
+            continue
         n_el = 1
         for s in rr['shape']:
             n_el *= s
+        tol = 1e-11 if rr['dtype'] != 'float32' else 1e-5      # the property's own bounds
+        if '>' in g['kname']:
+            tol *= 3
         for k in range(n_el):
             idx = dict(zip(rr['dims'], kcorr.unravel(k, rr['shape'])))
-            args = []
-            for nm in order:
-                st = r['operands'][nm]
-                args.append(si(st, idx.get(st['dims'][0], 0) if st['dims'] else 0))
+            pos = {nm: kcorr.flat_index(r['operands'][nm], idx) for nm in order}      # by dimension label
+            args = [si(r['operands'][nm], pos[nm]) for nm in order]
             v = rr['values'][k]
             if isinstance(v, str):
-                continue
-            got = float(Fraction(int(v[0]), int(v[1]))) * float(Fraction(int(rr['unit']['mult'][0]), int(rr['unit']['mult'][1])))
+                continue        # non-finite element: the correspondence reports those (impl-NaN / impl-infinite)
+            else:
+                got = float(Fraction(int(v[0]), int(v[1]))) * float(Fraction(int(rr['unit']['mult'][0]), int(rr['unit']['mult'][1])))
             want = FORM[g['kname']](*args)
-            tol = 1e-11 if rr['dtype'] != 'float32' else 1e-5      # the property's own bounds
             if not (abs(got - want) <= tol * abs(want)):
+                key = f'{g["kname"]}:formula'
+                if key in seen:
+                    break
+                seen.add(key)
                 d = {'kernel': g['kname'], 'si_args': args, 'impl_si': got, 'formula_si': want,
-                     'operands': {nm: kcorr.describe(r['operands'][nm], idx.get(r['operands'][nm]['dims'][0], 0) if r['operands'][nm]['dims'] else 0) for nm in order}}
-                ctx.violation(f'{g["kname"]}:formula', f'{g["kname"]} returns {got} (SI) where the definition gives {want}', d)
+                     'operands': {nm: kcorr.describe(r['operands'][nm], pos[nm]) for nm in order}}
+                if g['mode'] in ND_MODES:
+                    d.update(gdesc, element=idx, result_dims=rr['dims'])
+                ctx.violation(key, f'{g["kname"]} returns {got} (SI) where the definition gives {want}'
+                              + (f' (element {idx} of {gdesc["class"]}, {gdesc["arrays"]})' if g['mode'] in ND_MODES else ''), d)
                 found.append(d)
                 break
     return found
@@ -258,13 +523,30 @@ def replay(ctx, obj):
     import json
     print(json.dumps(obj, indent=1))
     case = obj['replay'].get('case') or obj['replay']
+    gops = case.get('group_operands')
+    if gops and case.get('kernel') in KERNELS:
+        # labelled n-d operands: run the implementation again on exactly these arrays (dims / shape / memory layout as given)
+        try:
+            r = ctx.run_impl('kernels_impl.py', {'no_history_pass': True, 'groups': [
+                {'id': 0, 'expr': KERNELS[case['kernel']][1], 'operands': gops}]})['groups'][0]
+            if 'result' in r:
+                rr = r['result']
+                print(f'{case["kernel"]} -> dims {rr["dims"]} shape {rr["shape"]} unit {rr["unit"]["name"]} {rr["dtype"]}: '
+                      f'{[kcorr.fmt(v) for v in rr["values"]]}')
+            else:
+                print(f'{case["kernel"]} raises {r.get("error")}: {r.get("error_text")}')
+        except Exception as ex:  # noqa: BLE001
+            print('re-run failed:', ex)
+        print('operands: tools/harness/kernels_impl.py build_operand(<group_operands[name]>) builds each array '
+              '(values in C order of dims/shape; layout.store = memory order, layout.pad = slice of a larger buffer)')
+        return 0
     print('re-run: PYTHONPATH=/repo/src /venv/bin/python -c "from scippneutron.conversion import tof; ..." with the operands above')
     return 0
 
 LEVEL_TEXT = ('Proof: for all positive inputs in arbitrary units and all numeric dtypes, each of the nine elastic kernels as '
               'regenerated from tof.py on this run denotes the de Broglie/Bragg formula in the documented unit and float class; '
               'routes agree and round trips are identities (over R, h and m_n arbitrary positive). The model of scipp '
-              'primitives is validated against the real scipp by ~1e3 (quick) element-wise cases compared inside Coq against exact rationals.')
+              'primitives is validated against the real scipp by ~1.8e3 (quick) element-wise cases (of which ~1e3 from labelled n-d operand arrays, matched by dimension label inside Coq) compared inside Coq against exact rationals.')
 LEVEL_NOTE = ('Trusted: Coq kernel; std-lib real-number axioms (sig_forall_dec, sig_not_dec, functional_extensionality_dep, classic); '
               'py2coq translator; Sem/Val.v model of scipp element semantics; accumulated rounding error bounded by theorem for all nine kernels in binary64 and binary32 '
               '(FloatErr*.v; named hypotheses: libm sine within 1 ulp, no overflow/underflow).')
